@@ -251,6 +251,10 @@ func VerifC02BitsRule() {
 	verifAssume(repo.HashHeight(hash) == -1) // a new header (SHA-256d collision-free)
 	perr := repo.ProcessHeader(context_bg(), x)
 	added := repo.HashHeight(hash) != -1
+	// creating a fork (or refusing a header) must not change the work recorded for existing headers:
+	// the required target for the next main-chain position stays what it was
+	again, err2 := b.Target(context_bg(), top+1)
+	verifAssert(err2 == nil && again.Cmp(required) == 0, "submission-changed-the-required-target-of-existing-chain")
 	if added {
 		verifReach("added")
 		height := top + 1
